@@ -36,7 +36,7 @@ type c14batchResult struct {
 	f        *flow.Func
 	res      *flow.Result
 	loop     ast.Stmt
-	valid    map[*ast.RangeStmt]bool // validation loops that complete only with err == nil
+	valid    map[ast.Stmt]bool // validation loops that complete only with err == nil
 	validSet bool
 	// prevalAtMut: every mutator call is reached only after a valid validation loop completed
 	prevalAtMut bool
@@ -85,12 +85,10 @@ func (b *c14batchResult) reports(e *c14env, cons string) {
 // c14batch analyses a batch operation of the TopicManager: mutator is "insert" or "remove".
 func c14batch(e *c14env, name, mutator string) *c14batchResult {
 	c := e.c
-	f := fn(c, mq, "TopicManager", name)
-	if f == nil {
-		return nil
-	}
-	cons := fname(mq, "TopicManager", name)
-	muts := callsTo(f, f.Body, false, "(*"+mq+".TopicManager)."+mutator)
+	f := e.role(name).f
+	cons := e.role(name).cons
+	mutObj := e.role(mutator).obj
+	muts := c14callsToFn(f, f.Body, false, mutObj)
 	if !c.RequireCount("R-C14-6", mutator+" call sites in "+name, len(muts), 1) {
 		return nil
 	}
@@ -107,79 +105,122 @@ func c14batch(e *c14env, name, mutator string) *c14batchResult {
 		loop, slice = l, sl
 	}
 
-	// validation loops: earlier loops over the same slice that call a level source on the
-	// current element and contain no mutator call
+	// validation loops: earlier loops over the same slice (in this function, or in a helper called
+	// before the mutation loop with the slice) that call a level source on the current element and
+	// contain no mutator call
 	type vinfo struct {
 		errKey string
 		valid  bool
 	}
-	vloops := map[*ast.RangeStmt]*vinfo{}
-	for _, rs := range c14ranges(f.Body) {
-		if ast.Stmt(rs) == loop || rs.Pos() > loop.Pos() || contains(rs, loop) || c14obj(f, rs.X) != slice {
-			continue
-		}
-		if len(callsTo(f, rs.Body, false, "(*"+mq+".TopicManager)."+mutator)) > 0 {
-			continue
-		}
-		srcs := callsTo(f, rs.Body, false, "(*"+mq+".TopicManager).getLevels", "(*"+mq+".topicLevelManager).get")
-		if len(srcs) != 1 || len(srcs[0].Args) != 1 {
-			continue
-		}
-		arg := ast.Unparen(srcs[0].Args[0])
-		elem := false
-		if o := c14obj(f, arg); o != nil && o == c14obj(f, rs.Value) {
-			elem = true
-		}
-		if ix, ok := arg.(*ast.IndexExpr); ok && c14obj(f, ix.X) == slice && c14obj(f, ix.Index) != nil && c14obj(f, ix.Index) == c14obj(f, rs.Key) {
-			elem = true
-		}
-		if !elem {
-			continue
-		}
-		var errID *ast.Ident
-		ast.Inspect(rs.Body, func(n ast.Node) bool {
-			if as, ok := n.(*ast.AssignStmt); ok && len(as.Rhs) == 1 && ast.Unparen(as.Rhs[0]) == ast.Expr(srcs[0]) && len(as.Lhs) == 2 {
-				errID, _ = as.Lhs[1].(*ast.Ident)
+	bind := c14bindings(f, 2)
+	vloops := map[ast.Stmt]*vinfo{}
+	vfuncs := map[types.Object]bool{}
+	for _, g := range reach(f, 2) {
+		g := g
+		gd, _ := g.Node.(*ast.FuncDecl)
+		if g != f {
+			if gd == nil || e.funcObj(gd) == mutObj || e.roles.sources[e.funcObj(gd)] {
+				continue
 			}
-			return true
-		})
-		if errID == nil || errID.Name == "_" {
-			continue
-		}
-		// the validation loop must be left early only by returning (a break would let the
-		// mutation loop start with the rest of the batch unvalidated)
-		onlyReturns := true
-		for _, x := range breaksOut(f, rs, labelOf(f.Body, rs)) {
-			if _, isRet := x.(*ast.ReturnStmt); !isRet {
-				onlyReturns = false
+			before := false
+			for _, call := range calls(f.Body, false) {
+				if fo := c14calleeOf(f, call); fo != nil && fo == e.funcObj(gd) && call.Pos() < loop.Pos() && !contains(loop, call) {
+					before = true
+				}
+			}
+			if !before {
+				continue
 			}
 		}
-		vloops[rs] = &vinfo{errKey: f.NilKey(errID), valid: onlyReturns}
+		for _, l := range c14loops(g.Body) {
+			it := c14iterOf(g, l)
+			if it == nil || l == loop || (g == f && (l.Pos() > loop.Pos() || contains(l, loop))) {
+				continue
+			}
+			if !c14denotes(bind, g, c14obj(g, it.slice), slice, 3) {
+				continue
+			}
+			if len(c14callsToFn(g, it.body, false, mutObj)) > 0 {
+				continue
+			}
+			srcs := e.sourceCalls(g, it.body, false)
+			if len(srcs) != 1 || len(srcs[0].Args) != 1 {
+				continue
+			}
+			arg := ast.Unparen(srcs[0].Args[0])
+			elem := false
+			if o := c14obj(g, arg); o != nil && o == it.elem {
+				elem = true
+			}
+			if ix, ok := arg.(*ast.IndexExpr); ok && g.Render(ix.X) == g.Render(it.slice) && c14obj(g, ix.Index) != nil && c14obj(g, ix.Index) == it.key {
+				elem = true
+			}
+			if !elem {
+				continue
+			}
+			var errID *ast.Ident
+			ast.Inspect(it.body, func(n ast.Node) bool {
+				if as, ok := n.(*ast.AssignStmt); ok && len(as.Rhs) == 1 && ast.Unparen(as.Rhs[0]) == ast.Expr(srcs[0]) && len(as.Lhs) == 2 {
+					errID, _ = as.Lhs[1].(*ast.Ident)
+				}
+				return true
+			})
+			if errID == nil || errID.Name == "_" {
+				continue
+			}
+			// the validation loop must be left early only by returning (a break would let the
+			// mutation loop start with the rest of the batch unvalidated)
+			onlyReturns := true
+			for _, x := range breaksOut(g, l, labelOf(g.Body, l)) {
+				if _, isRet := x.(*ast.ReturnStmt); !isRet {
+					onlyReturns = false
+				}
+			}
+			vloops[l] = &vinfo{errKey: g.NilKey(errID), valid: onlyReturns}
+			if gd != nil && g != f {
+				vfuncs[e.funcObj(gd)] = true
+			}
+		}
 	}
 
 	// error variables bound to a verdict on a filter of the batch (mutator result, level source)
 	var errKeys, mutErrKeys []string
-	ast.Inspect(f.Body, func(n ast.Node) bool {
-		as, ok := n.(*ast.AssignStmt)
-		if !ok || len(as.Rhs) != 1 {
-			return true
+	for _, g := range reach(f, 2) {
+		g := g
+		gd, _ := g.Node.(*ast.FuncDecl)
+		if g != f && (gd == nil || !vfuncs[e.funcObj(gd)]) {
+			continue
 		}
-		call, ok := ast.Unparen(as.Rhs[0]).(*ast.CallExpr)
-		if !ok {
-			return true
-		}
-		if id, ok := as.Lhs[len(as.Lhs)-1].(*ast.Ident); ok && id.Name != "_" {
-			if isMut[call] {
-				mutErrKeys = append(mutErrKeys, f.NilKey(id))
-			} else if calleeIs(f, call, "(*"+mq+".TopicManager).getLevels", "(*"+mq+".topicLevelManager).get") {
-				errKeys = append(errKeys, f.NilKey(id))
+		ast.Inspect(g.Body, func(n ast.Node) bool {
+			as, ok := n.(*ast.AssignStmt)
+			if !ok || len(as.Rhs) != 1 {
+				return true
 			}
-		}
-		return true
-	})
+			call, ok := ast.Unparen(as.Rhs[0]).(*ast.CallExpr)
+			if !ok {
+				return true
+			}
+			if id, ok := as.Lhs[len(as.Lhs)-1].(*ast.Ident); ok && id.Name != "_" {
+				if isMut[call] {
+					mutErrKeys = append(mutErrKeys, g.NilKey(id))
+				} else if e.isSource(g, call) {
+					errKeys = append(errKeys, g.NilKey(id))
+				}
+			}
+			return true
+		})
+	}
+	baseInline := inlineSamePkg(f)
 
 	res := analyze(c, f, flow.Config{
 		NoHavoc: true,
+		// only the validation helpers are interpreted in place
+		Inline: func(call *ast.CallExpr, callee *types.Func) *flow.Func {
+			if callee == nil || !vfuncs[callee] {
+				return nil
+			}
+			return baseInline(call, callee)
+		},
 		OnCall: func(st *flow.State, call *ast.CallExpr, callee types.Object, d bool) {
 			if isMut[call] {
 				st.Set(c14evMutCall, flow.True)
@@ -214,21 +255,20 @@ func c14batch(e *c14env, name, mutator string) *c14batchResult {
 				}
 				return
 			}
-			rs, _ := b.Stmt.(*ast.RangeStmt)
-			if rs == nil {
+			if b.Stmt == nil {
 				return
 			}
-			if v := vloops[rs]; v != nil {
-				switch b.Kind {
-				case cfg.KindRangeBody:
+			if v := vloops[b.Stmt]; v != nil {
+				switch {
+				case c14isBody(b.Kind):
 					st.Set("ev:c14:inV", flow.True)
-				case cfg.KindRangeLoop:
+				case c14isHead(b.Kind):
 					if st.Is("ev:c14:inV", flow.True) && !st.Is(v.errKey, flow.True) {
 						v.valid = false
 					}
 					st.Set("ev:c14:inV", flow.Unknown)
 					st.Set(v.errKey, flow.Unknown)
-				case cfg.KindRangeDone:
+				case c14isDone(b.Kind):
 					st.Set(c14evPreval, flow.True)
 				}
 			}
@@ -237,7 +277,7 @@ func c14batch(e *c14env, name, mutator string) *c14batchResult {
 	if res == nil {
 		return nil
 	}
-	out := &c14batchResult{f: f, res: res, loop: loop, valid: map[*ast.RangeStmt]bool{}}
+	out := &c14batchResult{f: f, res: res, loop: loop, valid: map[ast.Stmt]bool{}}
 	out.validSet = len(vloops) > 0
 	for rs, v := range vloops {
 		out.valid[rs] = v.valid
@@ -406,10 +446,33 @@ func c14batchLoop(f *flow.Func, call *ast.CallExpr) (ast.Stmt, types.Object) {
 
 func c14Batch(e *c14env) {
 	c := e.c
-	subName := "(*" + mq + ".TopicManager).subscribe"
-	unsubName := "(*" + mq + ".TopicManager).unsubscribe"
-	sessSub := "(*" + mq + ".Session).subscribe"
-	sessUnsub := "(*" + mq + ".Session).unsubscribe"
+	recordFns, forgetFns := e.sessionTopicFns()
+	isSuback := func(g *flow.Func, w *ast.CallExpr) bool {
+		if fo := c14calleeOf(g, w); fo == nil || fo.FullName() != "(*"+Mod+mq+".Client).writePacket" || len(w.Args) != 1 {
+			return false
+		}
+		tv, ok := g.Info.Types[w.Args[0]]
+		return ok && tv.Type != nil && tv.Type.String() == "*github.com/eclipse/paho.mqtt.golang/packets.SubackPacket"
+	}
+	// callsIn lists, over f and the helpers it calls (the TopicManager's own functions excluded), the
+	// calls for which pick reports true
+	callsIn := func(f *flow.Func, pick func(g *flow.Func, call *ast.CallExpr) bool) (out []*ast.CallExpr, in map[*ast.BlockStmt]bool) {
+		in = map[*ast.BlockStmt]bool{}
+		for _, g := range reach(f, 2) {
+			if gd, ok := g.Node.(*ast.FuncDecl); ok && g != f {
+				if r := e.recvNamed(gd); r != nil && (r.Obj().Name() == "TopicManager" || r.Obj().Name() == "Session") {
+					continue
+				}
+			}
+			for _, call := range calls(g.Body, false) {
+				if pick(g, call) {
+					out = append(out, call)
+					in[g.Body] = true
+				}
+			}
+		}
+		return
+	}
 
 	// ---- callers
 	gatedSubCallers, subCallers := 0, 0
@@ -417,8 +480,8 @@ func c14Batch(e *c14env) {
 	var regardlessAt []string
 	e.decls(func(f *flow.Func, fd *ast.FuncDecl) {
 		cons := declName(e.pkg, fd)
-		subs := callsTo(f, fd.Body, false, subName)
-		unsubs := callsTo(f, fd.Body, false, unsubName)
+		subs := c14callsToFn(f, fd.Body, false, e.role("subscribe").obj)
+		unsubs := c14callsToFn(f, fd.Body, false, e.role("unsubscribe").obj)
 		if len(subs) == 0 && len(unsubs) == 0 {
 			return
 		}
@@ -435,24 +498,25 @@ func c14Batch(e *c14env) {
 			}
 			return id
 		}
+		records, inR := callsIn(f, func(g *flow.Func, call *ast.CallExpr) bool {
+			fo := c14calleeOf(g, call)
+			return fo != nil && recordFns[fo]
+		})
+		acks, inA := callsIn(f, isSuback)
+		forgets, inF := callsIn(f, func(g *flow.Func, call *ast.CallExpr) bool {
+			fo := c14calleeOf(g, call)
+			return fo != nil && forgetFns[fo]
+		})
 		var res *flow.Result
 		run := func() *flow.Result {
 			if res == nil {
-				res = analyze(c, f, flow.Config{NoHavoc: true})
+				res = analyze(c, f, flow.Config{NoHavoc: true,
+					Inline: e.selectiveInline(f, 2, func(g *flow.Func) bool { return inR[g.Body] || inA[g.Body] || inF[g.Body] })})
 			}
 			return res
 		}
 		for _, s := range subs {
 			subCallers++
-			records := callsTo(f, fd.Body, false, sessSub)
-			var acks []*ast.CallExpr
-			for _, w := range callsTo(f, fd.Body, false, "(*"+mq+".Client).writePacket") {
-				if len(w.Args) == 1 {
-					if tv, ok := f.Info.Types[w.Args[0]]; ok && tv.Type != nil && tv.Type.String() == "*github.com/eclipse/paho.mqtt.golang/packets.SubackPacket" {
-						acks = append(acks, w)
-					}
-				}
-			}
 			if len(records) == 0 && len(acks) == 0 {
 				continue // e.g. session restore on connect: nothing is recorded or acknowledged here
 			}
@@ -471,6 +535,12 @@ func c14Batch(e *c14env) {
 			why := ""
 			n := 0
 			for _, call := range append(append([]*ast.CallExpr{}, records...), acks...) {
+				if len(r.At[call]) == 0 {
+					c.Undecide("R-C14-6", cons+"|SUBSCRIBE error gate", pos(c, call), "the recording / acknowledging call sits in a helper the flow engine could not interpret in place (or is unreachable): cannot decide under which verdict of TopicManager.subscribe it runs")
+					bad = nil
+					n = -1
+					break
+				}
 				for _, st := range r.At[call] {
 					n++
 					if !st.Is(key, flow.True) {
@@ -479,13 +549,15 @@ func c14Batch(e *c14env) {
 					}
 				}
 			}
+			if n < 0 {
+				continue
+			}
 			c.Check(bad == nil, "R-C14-6", cons+"|SUBSCRIBE error gate", pos(c, s),
 				sprintf("%d abstract states at Session.subscribe / SUBACK, all with TopicManager.subscribe's error known nil", n), why, witness(bad)...)
 		}
 		for _, u := range unsubs {
 			unsubCallers++
 			errID := errOf(u)
-			forgets := callsTo(f, fd.Body, false, sessUnsub)
 			regardless := errID == nil || len(forgets) == 0
 			if !regardless {
 				if r := run(); r != nil {
@@ -510,14 +582,14 @@ func c14Batch(e *c14env) {
 	// ---- subscribe: all-or-nothing
 	if b := c14batch(e, "subscribe", "insert"); b != nil {
 		e.insertPrevalidated = b.prevalAtMut
-		b.reports(e, fname(mq, "TopicManager", "subscribe"))
-		b.atomic(e, fname(mq, "TopicManager", "subscribe"), "inserted into the trie",
+		b.reports(e, e.role("subscribe").cons)
+		b.atomic(e, e.role("subscribe").cons, "inserted into the trie",
 			"the SUBSCRIBE handler treats the error as 'nothing subscribed' (no session record, no SUBACK), so the filters inserted before the malformed one route messages to a client that holds no such subscription, and since disconnect only unsubscribes what the session records they are never removed (a later client with the same id inherits them)")
 	}
 
 	// ---- unsubscribe
 	if b := c14batch(e, "unsubscribe", "remove"); b != nil {
-		cons := fname(mq, "TopicManager", "unsubscribe")
+		cons := e.role("unsubscribe").cons
 		if unsubRegardless > 0 {
 			b.complete(e, cons, sprintf("%d caller(s) (%v) forget the whole batch in the session whatever unsubscribe returns (UNSUBACK is sent), so a malformed filter in the batch leaves the well-formed filters after it in the trie: the client keeps receiving them after its UNSUBSCRIBE was acknowledged, and since disconnect only unsubscribes what the session records they are never removed", unsubRegardless, regardlessAt))
 		} else {
